@@ -40,7 +40,7 @@ func getConversion(in cty.Type, out cty.Type, unsafe bool) conversion {
 			// attributes from the type. Unknown and null pass through values
 			// must do the same to ensure that homogeneous collections have a
 			// single element type.
-			out = out.WithoutOptionalAttributesDeep()
+			out := out.WithoutOptionalAttributesDeep()
 
 			if !isKnown {
 				return prepareUnknownResult(in.Range(), dynamicReplace(in.Type(), out)), nil
